@@ -78,8 +78,9 @@ fn write_event(out: &mut Out, nr: usize, nc: usize, ones: &[(usize, usize)], pad
 }
 
 fn declared_too_big(text: &str) -> bool {
-    let first = text.split('\n').next().unwrap_or("");
-    first.split_whitespace().take(2).any(|t| match t.trim_start_matches('+').parse::<u128>() {
+    // "moderate declared dimensions": no numeric token anywhere in the text may exceed 20000, so that whichever
+    // line a (possibly changed) parser takes the dimensions from, it cannot be asked to allocate gigabytes
+    text.split_whitespace().any(|t| match t.trim_start_matches('+').parse::<u128>() {
         Ok(v) => v > 20_000,
         Err(_) => false,
     })
@@ -113,7 +114,7 @@ fn random_ones(rng: &mut Rng, nr: usize, nc: usize, dens: u64) -> Vec<(usize, us
 fn mutate(rng: &mut Rng, text: &str) -> String {
     let mut lines: Vec<String> = text.split('\n').map(|s| s.to_string()).collect();
     let n = lines.len();
-    match rng.below(14) {
+    match rng.below(15) {
         0 => { lines.remove(rng.below(n)); }
         1 => { let k = rng.below(n); let l = lines[k].clone(); lines.insert(k, l); }
         2 => { let a = rng.below(n); let b = rng.below(n); lines.swap(a, b); }
@@ -141,13 +142,19 @@ fn mutate(rng: &mut Rng, text: &str) -> String {
             if k < n { lines[k].push_str(&format!(" {}", nrows + 1 + rng.below(3))); }
         }
         12 => { let k = rng.below(n); lines[k] = String::new(); }
+        13 => {
+            // non-canonical spellings of numbers: 0 -> 00 / 000, k -> 0k
+            let k = rng.below(n);
+            let sp = ["00", "000", "0"][rng.below(3)];
+            lines[k] = lines[k].split(' ').map(|t| if t == "0" { sp.to_string() } else if rng.coin(1, 3) && !t.is_empty() && t.bytes().all(|b| b.is_ascii_digit()) { format!("0{t}") } else { t.to_string() }).collect::<Vec<_>>().join(" ");
+        }
         _ => { let k = rng.below(n); lines[k] = format!("  {}  ", lines[k].replace(' ', "   ")); }
     }
     lines.join("\n")
 }
 
 fn soup(rng: &mut Rng) -> String {
-    let toks = ["0", "1", "2", "3", "4", "5", "7", "12", "-1", "x", "", "1.5", "+2", "0007", "99999999999", "3", "2", "1"];
+    let toks = ["0", "1", "2", "3", "4", "5", "7", "12", "-1", "x", "", "1.5", "+2", "0007", "99999999999", "3", "2", "1", "00", "+0", "000", "-0", "01"];
     let nl = rng.below(9);
     let mut s = String::new();
     for _ in 0..nl {
